@@ -14,7 +14,7 @@ from hypothesis import strategies as st
 from . import types as G
 
 FX = "vf.gen.fixtures."
-ORDER = ["pos", "posq", "rest", "pair", "many", "flag", "fn", "ty", "cnt", "short", "grp.v", "grp.w", "dc"]
+ORDER = ["pos", "posq", "rest", "pair", "many", "flag", "fn", "ty", "cnt", "short", "grp.v", "grp.w", "dc", "mdls"]
 POSITIONALS = ("pos", "posq", "rest")
 SCALARS = {"int": int, "str": str, "float": float, "color": None}
 
@@ -42,6 +42,8 @@ def recipes():
         "grp.w": st.fixed_dictionaries({"default": st.booleans()}),
         # a dataclass-typed option given as ONE mapping: plain member, list member (also through an append key), subclass-typed member
         "dc": st.fixed_dictionaries({"opt_default": st.sampled_from(["SubA", "Base"])}),
+        # two class-typed options, the name of the first a prefix of the second's, both with a default spec that has init_args
+        "mdls": st.fixed_dictionaries({"first": st.sampled_from(["mdl", "mdl_ema"])}),
     }
     return st.tuples(st.fixed_dictionaries({}, optional=part), st.booleans()).filter(lambda t: len(t[0]) >= 2).map(
         lambda t: {"parts": {n: t[0][n] for n in ORDER if n in t[0]}, "env": t[1]})
@@ -106,6 +108,9 @@ def build(recipe, **kw):
             DC.__module__ = __name__
             globals()["KindsDC"] = DC
             p.add_argument("--dc", type=DC, default=DC())
+        elif name == "mdls":
+            for nm in (["mdl", "mdl_ema"] if s["first"] == "mdl" else ["mdl_ema", "mdl"]):
+                p.add_argument("--" + nm, type=F.Base, default={"class_path": FX + "SubA", "init_args": {"q": "q-" + nm}})
         elif name in ("grp.v", "grp.w"):
             grp = grp or p.add_argument_group("Group of options")
             if name == "grp.v":
@@ -184,6 +189,15 @@ def values_for(recipe):
                     m["opt"] = o
                 if m:
                     v[name] = m
+            elif name == "mdls" and give:
+                specs = [{"class_path": FX + "SubB"}, {"class_path": FX + "SubB", "init_args": {"r": [0.5]}}, {"class_path": FX + "SubA", "init_args": {"p": 4}},
+                         {"init_args": {"q": "given"}}, {"class_path": FX + "Base"}]
+                m = {}
+                for nm in ("mdl", "mdl_ema"):
+                    if draw(st.integers(0, 2)) > 0:
+                        m[nm] = draw(st.sampled_from(specs))
+                if m:
+                    v[name] = m
         # a value for `rest` can only be reached on the command line when the optional positional before it is filled
         if "rest" in v and v["rest"] and "posq" in parts and "posq" not in v:
             v["posq"] = draw(_scalar_value(parts["posq"]["type"], True))
@@ -246,6 +260,9 @@ def argv_for(recipe, values, layout=0):
             opts.append("--grp.w" if v else "--no_grp.w")
         elif name == "short":
             opts += ["-s", raw(v)] if layout // 2 % 2 == 0 and not raw(v).startswith("-") and raw(v) != "" else ["--short=" + raw(v)]
+        elif name == "mdls":
+            for nm, spec in v.items():
+                opts.append(f"--{nm}={json.dumps(spec)}")
         else:
             opts.append(f"--{name}={raw(v)}")
     if layout % 2 == 1 and not swallow:
@@ -256,6 +273,9 @@ def argv_for(recipe, values, layout=0):
 def object_for(recipe, values):
     out = {}
     for name, v in values.items():
+        if name == "mdls":
+            out.update(v)
+            continue
         d = dest(recipe, name)
         cur = out
         ks = d.split(".")
@@ -268,6 +288,10 @@ def object_for(recipe, values):
 def env_for(recipe, values):
     env = {}
     for name, v in values.items():
+        if name == "mdls":
+            for nm, spec in v.items():
+                env["VF_" + nm.upper()] = json.dumps(spec)
+            continue
         d = dest(recipe, name)
         env["VF_" + d.replace(".", "__").upper()] = raw(v) if not isinstance(v, (list, dict)) else json.dumps(v, ensure_ascii=False)
     return env
@@ -296,7 +320,7 @@ def expected(recipe, name, v):
     return v
 
 
-NO_MODEL = ("dc",)  # parts whose result is only compared across channels
+NO_MODEL = ("dc", "mdls")  # parts whose result is only compared across channels
 
 
 def given_ok(recipe, values, cfg):
